@@ -14,6 +14,7 @@ def base_specs(D):
             out.append(dict(name="RandomSineWaves1d", kw=dict(cutoff=4, std_one=std_one, max_one=max_one)))
     out.append(dict(name="RandomTruncatedFourierSeries", kw=dict(cutoff=2, offset_range=[0.5, 2.0])))
     out.append(dict(name="RandomTruncatedFourierSeries", kw=dict(cutoff=4, offset_range=[2.0, 2.0], max_one=False)))
+    out.append(dict(name="RandomTruncatedFourierSeries", kw=dict(cutoff=3, offset_range=[0.5, 1.0], max_one=True)))
     out.append(dict(name="GaussianRandomField", kw=dict(powerlaw_exponent=2.0, zero_mean=False, domain_extent=3.0)))
     out.append(dict(name="DiffusedNoise", kw=dict(intensity=0.01, zero_mean=False, domain_extent=2.0)))
     out.append(dict(name="RandomDiscontinuities", kw=dict(num_discontinuities=2, zero_mean=False, domain_extent=2.5, value_range=[0.5, 1.5])))
@@ -24,6 +25,7 @@ def base_specs(D):
     if D == 1:
         out.append(dict(name="RandomSineWaves1d", kw=dict(cutoff=3, offset_range=[0.5, 1.5], domain_extent=2.0)))
         out.append(dict(name="RandomSineWaves1d", kw=dict(cutoff=2, amplitude_range=[0.5, 1.0], phase_range=[0.0, 1.0])))
+        out.append(dict(name="RandomSineWaves1d", kw=dict(cutoff=3, offset_range=[0.5, 1.5], max_one=True)))
     return out
 
 
